@@ -423,8 +423,10 @@ def _build_cf1d(w):
         lon_attrs["bounds"] = nm.get("lon_bounds", "lon_bnds")
         data_vars[lat_attrs["bounds"]] = xarray.DataArray(q2f(g["yb"]), dims=[nm["ydim"], "bnds"])
         data_vars[lon_attrs["bounds"]] = xarray.DataArray(q2f(g["xb"]), dims=[nm["xdim"], "bnds"])
-    lat = xarray.DataArray(q2f(g["yc"]), dims=[nm["ydim"]], attrs=lat_attrs)
-    lon = xarray.DataArray(q2f(g["xc"]), dims=[nm["xdim"]], attrs=lon_attrs)
+    # (coord_dtype: whole-degree axes are sometimes stored as integers)
+    cdt = w.get("coord_dtype", "f8")
+    lat = xarray.DataArray(numpy.asarray(q2f(g["yc"])).astype(cdt), dims=[nm["ydim"]], attrs=lat_attrs)
+    lon = xarray.DataArray(numpy.asarray(q2f(g["xc"])).astype(cdt), dims=[nm["xdim"]], attrs=lon_attrs)
     if w.get("coords_as", "coords") == "coords":
         ds = xarray.Dataset(data_vars=data_vars, coords={nm["lat"]: lat, nm["lon"]: lon})
     else:
@@ -585,7 +587,10 @@ def bind(w: dict, ds: xarray.Dataset):
     Arakawa C which has to be constructed by hand."""
     if w["conv"] == "arakawa":
         from emsarray.conventions.arakawa_c import ArakawaC
-        conv = ArakawaC(ds, coordinate_names=arakawa_coord_names(w))
+        names = arakawa_coord_names(w)
+        # the caller's mapping lists the grid kinds in whatever order the caller likes
+        order = [["face", "left", "back", "node"], ["node", "back", "left", "face"], ["left", "node", "face", "back"]][(w.get("ny", 0) + 2 * w.get("nx", 0)) % 3]
+        conv = ArakawaC(ds, coordinate_names={k: names[k] for k in order})
         conv.bind()
         return conv
     return ds.ems
